@@ -531,6 +531,224 @@ def encode_topk(c, o):
     return tm((c["k"], ops, obs))
 
 
+# --------------------------------------------------------------------------- Reservoir
+class RecRng:
+    """Recording wrapper around the sampler's random.Random."""
+
+    def __init__(self, rng):
+        self.rng, self.log = rng, []
+
+    def randint(self, a, b):
+        v = self.rng.randint(a, b)
+        self.log.append(v)
+        return v
+
+    def random(self):
+        v = self.rng.random()
+        self.log.append(int(v * (1 << 53)))      # exact: random() is a multiple of 2**-53
+        return v
+
+    def __getattr__(self, k):
+        return getattr(self.rng, k)
+
+
+def gen_reservoir(rng):
+    k = rng.choice([1, 2, 3, 5])
+    ops = []
+    nxt = [100]
+    for _ in range(rng.choice([0, 1, 2, rng.randint(3, 25)])):
+        r = rng.random()
+        if r < 0.8:
+            if rng.random() < 0.5:
+                x = nxt[0]
+                nxt[0] += 1
+            else:
+                x = rng.randrange(4)
+            ops.append(["add", rng.randrange(3), x, 1 if rng.random() < 0.7 else rng.choice([0, 2, 3, -1, 7])])
+        else:
+            ops.append(["merge", rng.randrange(3), rng.randrange(3)])
+    return dict(k=k, seed=rng.randrange(1000), ops=ops)
+
+
+def impl_reservoir(c):
+    from happysimulator.sketching.reservoir import ReservoirSampler
+    slots = [ReservoirSampler(size=c["k"], seed=c["seed"] + i) for i in range(3)]
+    for s in slots:
+        s._rng = RecRng(s._rng)
+    obs = []
+    for o in c["ops"]:
+        s = slots[o[1]]
+        s._rng.log = []
+        raised = False
+        if o[0] == "add":
+            try:
+                s.add(o[2], o[3])
+            except ValueError:
+                raised = True
+        else:
+            s.merge(slots[o[2]])
+        if len(s) != len(s.sample()) or s.sample() != list(s) or s.sample_size != len(s) or s.capacity != c["k"]:
+            raise AssertionError("sample()/len()/iter() disagree")
+        obs.append([list(s._reservoir), s._total_count, raised, list(s._rng.log)])
+    return dict(obs=obs)
+
+
+def oracle_reservoir(c, o):
+    from collections import Counter
+    streams = [Counter() for _ in range(3)]
+    merged = [False] * 3
+    out = []
+    for op, ob in zip(c["ops"], o["obs"]):
+        sl = op[1]
+        if op[0] == "add" and op[3] > 0:
+            streams[sl][op[2]] += op[3]
+        elif op[0] == "merge":
+            streams[sl] = streams[sl] + streams[op[2]]
+            merged[sl] = True
+        n = sum(streams[sl].values())
+        held = Counter(ob[0])
+        if len(ob[0]) != min(c["k"], n) or ob[1] != n:
+            out.append(dict(clause="reservoir: holds min(k, n) items", op=op, held=ob[0], n=n, total=ob[1]))
+        extra = held - streams[sl]
+        if extra:
+            foreign = [x for x in extra if x not in streams[sl]]
+            out.append(dict(clause="reservoir: the items held are items of the stream (each occurrence at most once)",
+                            mechanism="merge-with-replacement" if merged[sl] and not foreign else "not-a-stream-item",
+                            op=op, held=ob[0], stream=dict(streams[sl]),
+                            what="ReservoirSampler.merge samples WITH replacement: the merged reservoir holds one stream occurrence more than once"))
+        if out:
+            break
+    return out[:2]
+
+
+def attribute_reservoir(c, o, f):
+    return "C20-reservoir-merge-with-replacement" if f.get("mechanism") == "merge-with-replacement" else None
+
+
+def encode_reservoir(c, o):
+    ops = []
+    for op, ob in zip(c["ops"], o["obs"]):
+        ops.append(Ctor("RAdd", op[1], op[2], op[3], ob[3]) if op[0] == "add" else Ctor("RMerge", op[1], op[2], ob[3]))
+    obs = [(ob[0], ob[1], ob[2]) for ob in o["obs"]]
+    return tm((c["k"], ops, obs))
+
+
+# --------------------------------------------------------------------------- Merkle
+def mkey(i):
+    return f"k{i:02d}"
+
+
+def gen_merkle(rng):
+    nkeys = rng.choice([1, 2, 3, 5, 8, 10])
+
+    def rand_map():
+        return {k: rng.randrange(3) for k in rng.sample(range(nkeys), rng.randint(0, nkeys))}
+    a = rand_map()
+    mode = rng.random()
+    if mode < 0.25:
+        b = dict(a)
+    elif mode < 0.7:
+        b = dict(a)
+        for _ in range(rng.randint(1, 3)):
+            k = rng.randrange(nkeys)
+            r = rng.random()
+            if r < 0.4:
+                b[k] = rng.randrange(3)
+            elif r < 0.7:
+                b.pop(k, None)
+            else:
+                b[k] = b.get(k, 0) + 1
+    else:
+        b = rand_map()
+    ops = [["build", 0, sorted(a.items(), key=lambda kv: rng.random())],
+           ["build", 1, sorted(b.items(), key=lambda kv: rng.random())], ["diff", 0, 1], ["diff", 1, 0]]
+    for _ in range(rng.randint(0, 6)):
+        r = rng.random()
+        t = rng.randrange(2)
+        if r < 0.4:
+            ops.append(["update", t, rng.randrange(nkeys), rng.randrange(3)])
+        elif r < 0.65:
+            ops.append(["remove", t, rng.randrange(nkeys)])
+        else:
+            ops.append(["diff", t, 1 - t] if rng.random() < 0.9 else ["diff", t, t])
+    ops.append(["diff", 0, 1])
+    return dict(ops=ops)
+
+
+def impl_merkle(c):
+    from happysimulator.sketching.merkle_tree import MerkleTree
+    trees = {0: MerkleTree(), 1: MerkleTree()}
+    ref = {0: {}, 1: {}}
+    obs = []
+    ki = lambda s: int(s[1:])  # noqa: E731
+    for o in c["ops"]:
+        ranges, same = [], False
+        if o[0] == "build":
+            trees[o[1]] = MerkleTree.build({mkey(k): v for k, v in o[2]})
+            ref[o[1]] = {k: v for k, v in o[2]}
+        elif o[0] == "update":
+            trees[o[1]].update(mkey(o[2]), o[3])
+            ref[o[1]][o[2]] = o[3]
+        elif o[0] == "remove":
+            existed = trees[o[1]].remove(mkey(o[2]))
+            if existed != (o[2] in ref[o[1]]):
+                raise AssertionError("remove() return value")
+            ref[o[1]].pop(o[2], None)
+        else:
+            d = trees[o[1]].diff(trees[o[2]])
+            ranges = [[ki(r.start), ki(r.end)] for r in d]
+            same = trees[o[1]].root_hash == trees[o[2]].root_hash
+            for r in d:
+                for k in range(12):
+                    if r.contains(mkey(k)) != (ki(r.start) <= k <= ki(r.end)):
+                        raise AssertionError("KeyRange.contains")
+        t = trees[o[1]]
+        if t.size != len(ref[o[1]]) or t.keys() != [mkey(k) for k in sorted(ref[o[1]])] or any(
+                t.get(mkey(k)) != ref[o[1]].get(k) for k in range(12)):
+            raise AssertionError("size/keys/get disagree with the map")
+        obs.append([[[ki(k), v] for k, v in t.items()], ranges, same])
+    return dict(obs=obs)
+
+
+def oracle_merkle(c, o):
+    maps = {0: {}, 1: {}}
+    out = []
+    for op, ob in zip(c["ops"], o["obs"]):
+        if op[0] == "build":
+            maps[op[1]] = {k: v for k, v in op[2]}
+        elif op[0] == "update":
+            maps[op[1]][op[2]] = op[3]
+        elif op[0] == "remove":
+            maps[op[1]].pop(op[2], None)
+        else:
+            a, b = maps[op[1]], maps[op[2]]
+            if (ob[1] == []) != (a == b):
+                out.append(dict(clause="merkle: diff is empty exactly when the two maps are equal", op=op, a=a, b=b, diff=ob[1]))
+            if ob[2] != (a == b):
+                out.append(dict(clause="merkle: root hashes are equal exactly when the two maps are equal", op=op, a=a, b=b))
+            for k in set(a) | set(b):
+                if a.get(k) != b.get(k) and not any(lo <= k <= hi for lo, hi in ob[1]):
+                    out.append(dict(clause="merkle: diff ranges cover every key whose value differs", op=op, key=k, a=a, b=b, diff=ob[1]))
+        if out:
+            break
+    return out[:2]
+
+
+def encode_merkle(c, o):
+    ops = []
+    for op in c["ops"]:
+        if op[0] == "build":
+            ops.append(Ctor("MBuild", op[1], [tuple(kv) for kv in op[2]]))
+        elif op[0] == "update":
+            ops.append(Ctor("MUpdate", op[1], op[2], op[3]))
+        elif op[0] == "remove":
+            ops.append(Ctor("MRemove", op[1], op[2]))
+        else:
+            ops.append(Ctor("MDiff", op[1], op[2]))
+    obs = [([tuple(kv) for kv in ob[0]], [tuple(r) for r in ob[1]], ob[2]) for ob in o["obs"]]
+    return tm((ops, obs))
+
+
 # --------------------------------------------------------------------------- families
 FAMILIES = [
     Family("bloom", IMPORTS, "ok_bloom", "Z * Z * list (Z * Z * (Z * Z)) * list b_op * list b_obs",
@@ -549,9 +767,18 @@ FAMILIES = [
            gen_topk, impl_topk, encode_topk, oracle_topk,
            lambda c, o: any(len(ob[0]) >= c["k"] for ob in o["obs"]),
            describe=lambda c: f"k={c['k']}"),
+    Family("reservoir", IMPORTS, "ok_reservoir", "Z * list r_op * list r_obs",
+           gen_reservoir, impl_reservoir, encode_reservoir, oracle_reservoir,
+           lambda c, o: any(ob[3] for ob in o["obs"]), attribute_reservoir,
+           describe=lambda c: f"k={c['k']}"),
+    Family("merkle", IMPORTS, "ok_merkle", "list m_op * list m_obs",
+           gen_merkle, impl_merkle, encode_merkle, oracle_merkle,
+           lambda c, o: any(ob[1] for ob in o["obs"]),
+           describe=lambda c: f"ops={len(c['ops'])}"),
 ]
 
-PROOF_FILES = ["C20/Model.v", "C20/Bloom.v", "C20/Counting.v", "C20/TopK.v", "C20/Props.v"]
+PROOF_FILES = ["C20/Model.v", "C20/Bloom.v", "C20/Counting.v", "C20/TopK.v", "C20/Reservoir.v", "C20/Merkle.v",
+               "C20/Props.v"]
 
 WEIGHT = {}
 
